@@ -84,6 +84,11 @@ theorem decodeReplace_cons (b : UInt8) (rest : List UInt8) :
   rw [decodeFuel_succ_cons]
   have := step_length b rest
   rw [decodeFuel_stable (rest.length + 1) ((step b rest).2.length + 1) _ (by omega) (by omega)]
+/-- **`decodeReplace_total`**: the fuel of the model is never exhausted - with any fuel ≥ the input length the loop
+    consumes the whole input and yields `decodeReplace bs` (so the fuel parameter is not an observable cut-off) -/
+theorem decodeReplace_total (bs : List UInt8) (f : Nat) (h : bs.length ≤ f) : decodeFuel f bs = decodeReplace bs :=
+  decodeFuel_stable f (bs.length + 1) bs h (by omega)
+
 theorem toNat_toUInt8 (n : Nat) (h : n < 256) : (n.toUInt8).toNat = n := by
   rw [Nat.toUInt8, UInt8.toNat_ofNat']; omega
 
